@@ -1233,7 +1233,14 @@ func runC16(c *Ctx) error {
 	emit := func(kind string, in *C16Input) {
 		nCase++
 		t0 := time.Now()
-		obs := c16Exec(in, fmt.Sprintf("s%d", nCase))
+		name := fmt.Sprintf("s%d", nCase)
+		obs := c16Exec(in, name)
+		// the session files of this case
+		if fs, _ := filepath.Glob(filepath.Join(c16Tmp, name+"*")); len(fs) > 0 {
+			for _, f := range fs {
+				os.RemoveAll(f)
+			}
+		}
 		if os.Getenv("AMV_C16_TIMING") != "" {
 			fmt.Fprintf(os.Stderr, "case %d %s: %v records=%d nav=%d\n", nCase, kind, time.Since(t0), len(obs.Msgs), len(obs.Nav))
 		}
